@@ -8,7 +8,7 @@ import (
 	"verifharness/internal/vkit"
 )
 
-func main() { vkit.Main("C19", []string{"Gen.R1", "Gen.S1", "Gen.R2", "Gen.S2Rect"}, runC19) }
+func main() { vkit.Main("C19", []string{"Gen.R1", "Gen.S1", "Gen.R2", "Gen.S2Rect", "Gen.S2Cap"}, runC19) }
 
 // floats as strings: JSON has no Inf/NaN
 func fs(xs ...float64) []string {
@@ -42,6 +42,7 @@ func runC19(c *vkit.Collector, rng *vkit.Rng, budget int) {
 	runC19s1(c, rng, budget)
 	runC19r2(c, rng, budget)
 	runC19s2rect(c, rng, budget)
+	runC19cap(c, rng, budget)
 }
 
 func runC19r1(c *vkit.Collector, rng *vkit.Rng, budget int) {
